@@ -68,7 +68,10 @@ RULE = ("model case = (state kind pos/cplx/dens, n<=4, h<=4, a<=3, scale in {0.1
         "gibbs_steps(k, initial_state, overwrite)); the states are constructed with gpu=<falsy object of one of these forms>; argument-form "
         "sweep (round 5): every INTEGER option - the constructor sizes num_visible / num_hidden / num_aux (state and RBM constructors), `k` and "
         "`num_samples` of sample, `k` of gibbs_steps, first and continuation call - is handed over as one of {Python int, np.int64, np.int32, "
-        "np.intp, np.uint8, 0-d integer numpy array, 0-d integer torch tensor} drawn from the case's own stream (`aseed`), keyword or positional")
+        "np.intp, np.uint8, 0-d integer numpy array, 0-d integer torch tensor} drawn from the case's own stream (`aseed`), keyword or positional "
+        "(a REFUSAL of np.uint8 / 0-d array / 0-d tensor is informational: outside the quantifier); env_run: five models constructed inside each caller "
+        "environment (torch default dtype float64, no_grad, other cwd) with parts (a), (b), (d) on each; the element type of the result is counted, not demanded; "
+        "a float32 start state with overwrite=True must be either untouched or hold the returned values")
 
 
 # ------------------------------------------------------------------ helpers
